@@ -199,7 +199,7 @@ import s_treeprops
 def tree_plan(prop, quick, thorough, rule, assumptions=()):
     def run(tier, seed, out, drv):
         s_treeprops.tree_suite(prop, seed, quick if tier == 'quick' else thorough, out, drv, budget_s=120 if tier == 'quick' else 1500)
-        if prop == 'C14': s_treeprops.T.alias_suite(prop, seed, 50 if tier == 'quick' else 1200, out, drv, budget_s=40 if tier == 'quick' else 500)
+        if prop in ('C14', 'C15'): s_treeprops.T.alias_suite(prop, seed, 50 if tier == 'quick' else 1200, out, drv, budget_s=40 if tier == 'quick' else 500)      # C15: a pattern that excludes a directory says nothing about another name for it
         if prop in ('C13', 'C18'): s_treeprops.odd_inputs_suite(prop, out, drv)
         if prop == 'C12': s_treeprops.documenter_defaults_suite(out, drv)
         if prop in ('C12', 'C15'):
